@@ -12,6 +12,7 @@ let () =
     "concat", (fun _ -> Wire.cmd_concat);
     "cursor", Xcursor.cmd_cursor;
     "loop", Xloop.cmd_loop;
+    "ignore", Xloop.cmd_ignore;
     "compile", Xlang.cmd_compile;
     "dp", Xdp.cmd_dp;
     "ctlser", Xdp.cmd_ctlser;
